@@ -3,7 +3,7 @@
 From SC Require Import Lib.Prelude Lib.Int Lib.Host Model.ClaimIssuer Model.Identity.
 
 Definition cfg0 : cfg :=
-  {| c_net := []; c_xdr := fun _ => []; c_sigok := fun _ _ _ _ _ => false;
+  {| c_net := []; c_xdr := fun _ => []; c_sigok := fun _ _ _ _ _ => false; c_other := fun _ _ _ _ _ _ => false;
      c_max_topics := 15; c_max_issuers := 50; c_max_keys := 50; c_max_regs := 20; c_max_countries := 15 |}.
 
 (* contracts: registry 0, identity registry 1, identity contract 2; account 3 *)
